@@ -327,6 +327,7 @@ impl SerialDevice for TestPort {
     }
 }
 
+#[allow(dead_code)]
 fn str_box_err(e: &(dyn std::error::Error + Send + Sync + 'static)) -> String {
     match e.downcast_ref::<FrameError>() {
         Some(fe) => str_ferr(fe),
@@ -498,7 +499,7 @@ impl Write for CtrlPort {
             let s = match r {
                 None => "PANIC".to_string(),
                 Some(Ok(())) => "OK".to_string(),
-                Some(Err(OdkError::Communication { source })) => format!("COMM {}", str_ferr(&source)),
+                Some(Err(OdkError::Communication { .. })) => "COMM".to_string(),
                 Some(Err(OdkError::Bus { .. })) => "BUSERR".to_string(),
                 Some(Err(_)) => "ER ???".to_string(),
             };
@@ -630,10 +631,8 @@ pub fn eval_io_case(t: &[&str]) -> Option<String> {
                 let res = match &r {
                     None => "PANIC".to_string(),
                     Some(Ok(reply)) => format!("OK {}", str_omsg(reply)),
-                    Some(Err(e)) => {
-                        let s = str_box_err(e.as_ref());
-                        s
-                    }
+                    // C16 fixes THAT a failed write, failed read or undecodable reply is an error, not which one
+                    Some(Err(_)) => "ER".to_string(),
                 };
                 {
                     let port = bus.port();
@@ -725,7 +724,7 @@ pub fn eval_io_case(t: &[&str]) -> Option<String> {
                 let s = match r {
                     None => "PANIC".to_string(),
                     Some(Ok(())) => "OK".to_string(),
-                    Some(Err(OdkError::Communication { source })) => format!("COMM {}", str_ferr(&source)),
+                    Some(Err(OdkError::Communication { .. })) => "COMM".to_string(),
                     Some(Err(OdkError::Bus { .. })) => "BUSERR".to_string(),
                     Some(Err(_)) => "ER ???".to_string(),
                 };
